@@ -926,6 +926,11 @@ class KmipEngine(object):
             elif attribute_name == "Sensitive":
                 field = "sensitive"
 
+            if field and not hasattr(managed_object, field):
+                # The attribute applies to the object type but is not stored
+                # for it (e.g., the cryptographic algorithm of a certificate).
+                field = None
+
             if field:
                 existing_value = getattr(managed_object, field)
                 if existing_value:
